@@ -11,6 +11,7 @@ import (
 	"strings"
 
 	"verif/harness"
+	"verif/mapseed"
 	"verif/run"
 )
 
@@ -69,6 +70,7 @@ func main() {
 		r.Tier = rp.Tier
 		r.SetReplay(rp)
 	}
+	mapseed.Full = r.Tier == "thorough"
 	if pf := os.Getenv("VERIF_CPUPROFILE"); pf != "" {
 		w, err := os.Create(pf)
 		if err == nil {
